@@ -315,6 +315,19 @@ fn c08_grid(tier: Tier) -> Vec<Program> {
             }
         }
     }
+    // declared sizes far above the data (9 MiB .. 300 MiB more) for bytes another key already
+    // holds: the commit is rejected and the stored copy is not disturbed
+    for off in [9i64 << 20, 100 << 20, 300 << 20] {
+        for (fl, keyed) in [(Fl::Sync, true), (Fl::Sync, false), (Fl::Async, false), (Fl::Async, true)] {
+            let mut s = WriteSpec::simple(if keyed { Some(0) } else { None }, 0);
+            s.entry = WEntry::Opts;
+            s.declare = Declare::Off(off);
+            s.chunks = vec![100];
+            let blobs = vec![Blob::new(5000, 21), Blob::new(9, 4)];
+            let steps = vec![Step { op: Op::Write(WriteSpec::simple(Some(1), 0)), fl: Fl::Sync }, Step { op: Op::Write(s), fl }, Step { op: Op::Read { key: 1 }, fl }];
+            out.push(Program { keys: keys.clone(), blobs, steps });
+        }
+    }
     // over-long and short streams of values with long zero runs: the surplus (or the missing
     // part) consists of whole zero chunks
     for (len, fill) in [(262144usize, Fill::ZeroTail), (393216, Fill::ZeroTail), (131072, Fill::Zero), (MIB + 131072, Fill::ZeroTail)] {
